@@ -69,7 +69,7 @@ package peers
 
 // wf: the index maps agree with the slice: every listed peer is indexed under its canonical key, every
 // indexed peer is listed, and the thresholds' memo cells are consistent.
-//@ ghost func (ps *PeerSet) WF() bool { return ps.ByPubKey != nil && ps.ByID != nil && len(ps.ByPubKey) <= len(ps.Peers) && len(ps.Peers) < 2147483648 && (forall i int :: 0 <= i && i < len(ps.Peers) ==> ps.Peers[i] != nil && __allocated(ps.Peers[i]) && __in(KeyOf(ps.Peers[i]), ps.ByPubKey)) && (forall k string :: __in(k, ps.ByPubKey) ==> ps.ByPubKey[k] != nil && __allocated(ps.ByPubKey[k]) && KeyOf(ps.ByPubKey[k]) == k) }
+//@ ghost func (ps *PeerSet) WF() bool { return ps.ByPubKey != nil && ps.ByID != nil && len(ps.ByPubKey) <= len(ps.Peers) && len(ps.Peers) < 2147483648 && (forall i int :: 0 <= i && i < len(ps.Peers) ==> ps.Peers[i] != nil && __allocated(ps.Peers[i]) && __in(KeyOf(ps.Peers[i]), ps.ByPubKey)) && (forall k string :: __in(k, ps.ByPubKey) ==> ps.ByPubKey[k] != nil && __allocated(ps.ByPubKey[k]) && KeyOf(ps.ByPubKey[k]) == k && (exists i int :: 0 <= i && i < len(ps.Peers) && ps.Peers[i] == ps.ByPubKey[k])) }
 
 //@ func (p *Peer) PubKeyString() string
 //@   requires p != nil
@@ -96,7 +96,7 @@ package peers
 //@   ensures[fresh] __fresh(peerSet.ByPubKey) && __fresh(peerSet.ByID)
 //@   loop 1 invariant[maps]  peerSet.ByPubKey != nil && peerSet.ByID != nil && __fresh(peerSet.ByPubKey) && __fresh(peerSet.ByID) && len(peerSet.ByPubKey) <= __idx()
 //@   loop 1 invariant[in]    forall i int :: 0 <= i && i < __idx() ==> __in(KeyOf(peerSet.Peers[i]), peerSet.ByPubKey)
-//@   loop 1 invariant[back]  forall k string :: __in(k, peerSet.ByPubKey) ==> peerSet.ByPubKey[k] != nil && __allocated(peerSet.ByPubKey[k]) && KeyOf(peerSet.ByPubKey[k]) == k
+//@   loop 1 invariant[back]  forall k string :: __in(k, peerSet.ByPubKey) ==> peerSet.ByPubKey[k] != nil && __allocated(peerSet.ByPubKey[k]) && KeyOf(peerSet.ByPubKey[k]) == k && (exists i int :: 0 <= i && i < __idx() && peerSet.Peers[i] == peerSet.ByPubKey[k])
 
 //@ func NewPeerSet(peers []*Peer) *PeerSet
 //@   requires len(peers) < 2147483648 && (forall i int :: 0 <= i && i < len(peers) ==> PeerOK(peers[i]))
